@@ -370,11 +370,16 @@ func judgeC13Raw(c c13Case) (string, string) {
 		// how a root is spelled does not matter: every third case hands both roots over with a trailing separator,
 		// every third (other) one with a redundant "/." at the end
 		sr, dr := srcDir, dstDir
-		switch evid.H(c.String()) % 3 {
+		switch evid.H(c.String()) % 4 {
 		case 1:
 			sr, dr = sr+"/", dr+"/"
 		case 2:
 			sr, dr = sr+"/.", dr+"//"
+		case 3:
+			// ... and every fourth one reaches the destination root through a symlink
+			if os.Symlink(filepath.Base(dr), dr+".lnk") == nil {
+				dr = dr + ".lnk"
+			}
 		}
 		return fscopy.Copy(context.Background(), sr, c.Src, dr, c.Dst, fscopy.WithCopyInfo(ci))
 	}); err != nil {
